@@ -460,6 +460,7 @@ impl C10 {
         rep.count("probe.svr-iterations>1e4", (ticks.get() > 10_000) as u64);
         rep.count("probe.svr-iterations>1e5", (ticks.get() > 100_000) as u64);
         rep.count("probe.svr-iterations>1e6", (ticks.get() > 1_000_000) as u64);
+        rep.count("probe.svr-iterations>1e5*n", (ticks.get() > 100_000 * n as u64) as u64);
         if ticks.get() > 100_000 {
             rep.max(&format!("svr_slow_iters[{},C={},tol={},eps={},n={}]", case.kernel.kind, case.c, case.tol, case.eps, n), ticks.get() as f64);
         }
@@ -826,12 +827,15 @@ fn gen_case(batch: &str, index: u64, seed: u64) -> Case {
         "svr-hard" | "svr-hard-tight" => {
             // the slowly converging corner the fast batch leaves out: large C times large kernel values
             // (linear / quadratic kernels on features in [-3, 3], C = 100, tol down to 1e-4, n up to 60)
-            let n = pr.usize_in(20, 60);
+            let n = if batch == "svr-hard-tight" { pr.usize_in(20, 30) } else { pr.usize_in(20, 60) };
             let p = pr.usize_in(2, 5);
             let x: Vec<Vec<f64>> = (0..n).map(|_| (0..p).map(|_| r.range(-3.0, 3.0)).collect()).collect();
             let coef: Vec<f64> = (0..p).map(|_| r.range(-2.0, 2.0)).collect();
-            let y: Vec<f64> = x.iter().map(|row| row.iter().zip(&coef).map(|(a, b)| a * b).sum::<f64>() + 0.3 * row[0] * row[0] + r.range(-1.0, 1.0)).collect();
-            let kernel = match pr.below(3) {
+            let tight = batch == "svr-hard-tight";
+            let noise = if tight { 0.1 } else { 1.0 };
+            let y: Vec<f64> = x.iter().map(|row| row.iter().zip(&coef).map(|(a, b)| a * b).sum::<f64>() + 0.3 * row[0] * row[0] + noise * r.range(-1.0, 1.0)).collect();
+            // the tight batch concentrates on the slowest configuration seen: quadratic kernel, low noise
+            let kernel = match if tight { 1 } else { pr.below(3) } {
                 0 => KSpec { kind: "linear".into(), gamma: 0.0, degree: 0.0, coef0: 0.0 },
                 1 => KSpec { kind: "poly".into(), gamma: 0.5, degree: 2.0, coef0: 1.0 },
                 _ => KSpec { kind: "rbf".into(), gamma: *pr.pick(&[0.1, 0.5]), degree: 0.0, coef0: 0.0 },
@@ -926,7 +930,7 @@ impl Property for C10 {
             Batch { name: "svc-f32", count: if q { 8_000 } else { 400_000 }, simulated: true, exhaustive: false, note: "single precision, tolerances scaled" },
             Batch { name: "svr", count: if q { 12_000 } else { 600_000 }, simulated: false, exhaustive: false, note: "schedule-free ride-along: SVR draws nothing; linear / RBF / polynomial degree<=2, C<=10, n<=40; termination judged by state-cycle detection over the tick hook's state digests (step budget only as fallback)" },
             Batch { name: "svr-hard", count: if q { 48 } else { 1_500 }, simulated: false, exhaustive: false, note: "schedule-free: the slowly converging corner (C = 100, linear / quadratic / RBF kernels on features in [-3,3], n 20..60, tol 1e-3) with a 4e9-iteration fallback budget; few runs because each takes up to seconds" },
-            Batch { name: "svr-hard-tight", count: if q { 0 } else { 600 }, simulated: false, exhaustive: false, note: "same corner at tol 1e-4 (up to 2.2e7 iterations per fit): thorough tier only" },
+            Batch { name: "svr-hard-tight", count: if q { 12 } else { 600 }, simulated: false, exhaustive: false, note: "same corner at tol 1e-4, quadratic kernel, low noise (up to ~2e7 iterations per fit)" },
             Batch { name: "svr-f32", count: if q { 1_000 } else { 100_000 }, simulated: false, exhaustive: false, note: "schedule-free, single precision" },
             Batch { name: "kernels", count: if q { 6_000 } else { 600_000 }, simulated: false, exhaustive: false, note: "schedule-free: closed forms, symmetry, PSD of linear/RBF Gram matrices" },
             Batch { name: "kernels-f32", count: if q { 2_000 } else { 200_000 }, simulated: false, exhaustive: false, note: "schedule-free, single precision" },
